@@ -30,7 +30,7 @@ def gen(c, binary):
     for line in out.split("\n"):
         f = line.split()
         if len(f) >= 4 and f[0] == "item":
-            items.append((f[1], f[2], int(f[3], 16)))
+            items.append((f[1], f[2], int(f[3], 16), "tl2=true" in f))
         if len(f) == 3 and f[0] == "const" and f[1] == "MaxUncompressedBucketSize":
             maxb = int(f[2])
     schemas = {}
@@ -57,7 +57,8 @@ def gen(c, binary):
     if missing:
         c.broken.append(f"schema constructs the translator does not support: {missing}")
     c.extra["schema_coverage"] = {"factory_items": cov["items"], "items_with_descriptor": cov["translated"],
-                                  "function_results_with_descriptor": cov["results"], "not_translated": cov["unsupported"]}
+                                  "function_results_with_descriptor": cov["results"], "not_translated": cov["unsupported"],
+                                  "items_with_generated_tl2": cov["tl2_items"], "tl2_items_outside_model_fragment": cov["tl2_float_fields"]}
     return sup
 
 
@@ -65,7 +66,9 @@ def run(c):
     c.rule = ("case i drives factory item (i mod #items) of the four generated packages (every type is visited): FillRandom (or a "
               "reflection filler for the tl2gen-1.4 packages) plus boundary enrichment (string lengths 0..5, 250..258, 300, 1021; quotes, "
               "NUL, multi-byte UTF-8 or raw bytes; extreme ints; -0, Inf, NaN payloads); ops = decode of the bare and boxed Go bytes with "
-              "trailing bytes, two truncations, three one-byte mutations, the function result, and the decode of an empty/mixed value B by "
+              "trailing bytes (string variant: dec, []byte variant: decb), two truncations, three one-byte mutations, the function result, for "
+              "types with generated TL2 the Go WriteTL2 bytes decoded and re-encoded by the TL2 model (tl2 / tl2b), TL1-vs-TL2 same-value "
+              "(tl2x), a TL2 truncation and two TL2 mutants, and the decode of an empty/mixed value B by "
               "a string- and a []byte-variant object that has just read a fully populated value A (reused destination); every 16th case "
               "is a frame case (empty, incompressible, compressible, equal-size, boundary, damaged frames, plus a batch of 14 weakly "
               "compressible payloads each: random bodies of 64 B..64 KiB, dense at 3-5 KiB, with one 4-32 byte repeat a few bytes before "
@@ -75,14 +78,16 @@ def run(c):
               "around 254 and 65790 exactly). Non-trivial = encoding longer than 8 bytes, or a mutant the "
               "reader accepted, or a frame that was really compressed; distinct by op-sequence hash")
     c.assumptions += ["lz4 (github.com/pierrec/lz4) is an abstract inverse pair in the theorems; in the correspondence its observed results are inputs of the model",
-                      "the generated TL2 object codecs and JSON are not modelled: Go-side round-trip oracle only (the TL2 size codec and TL2 strings are modelled and proved)",
+                      "JSON is the one clause that is not a theorem: Go-side round-trip oracle only (its content is number and string TEXT formatting — strconv float/int printing and parsing, string escaping, base64 — for which there is no model here)",
+                      "TL2 is modelled (SH.Model.TL2) for the fragment the generator uses in /repo; float/double as direct fields, Bool as vector element or conditional field, unions with fields, tuples are outside it (schema_tl2_supported re-checks on every run that no generated TL2 type needs them)",
+                      "bytes-vs-string variants: the model has one descriptor and one encoding per type, so 'identical encodings' is definitional in Lean and is discharged as a correspondence obligation per type (ops decb / tl2b: the []byte variant's observation must equal the model's single answer, like the string variant's)",
                       "reading into a used destination: the model's decode is a function of the bytes, so independence of the destination's previous content is an obligation on the correspondence and the Go oracle, not a theorem",
                       "basictl.CheckLengthSanity is not modelled (only changes which error is returned)",
                       "values are compared through their canonical TL1 bytes (sound by theorem tl1_injective)",
                       "10 MiB payloads are checked by the Go oracle only (too long for the list-based model driver)"]
     binary = c.go_build(HARNESS)
     sup = gen(c, binary) if binary else None
-    c.prove("SH.Props.C14", extra_files=["SH/Model/TL.lean", "SH/Lemmas/TL.lean"])
+    c.prove("SH.Props.C14", extra_files=["SH/Model/TL.lean", "SH/Model/TL2.lean", "SH/Lemmas/TL.lean", "SH/Lemmas/TL2.lean"])
     drv = c.driver(DRIVER)
     if binary and drv and sup:
         rc, out = c.go_run(binary, [f"-n={c.n(1600, 40000)}", f"-arg={sup}"], timeout=1500)
@@ -104,7 +109,7 @@ REPLAY_ARGS = ["-arg=" + os.path.join(VERIF, ".build", "c14-support.txt")]
 
 META = {
     "level": "proof",
-    "technique": ("Lean 4: one generic TL1 codec over schema descriptors with a single kernel-checked round-trip theorem (mutual recursor of the "
+    "technique": ("Lean 4: one generic TL1 codec and one generic TL2 codec over the same schema descriptors, each with a single kernel-checked round-trip theorem (mutual recursor of the "
                   "descriptor types), instantiated with descriptors regenerated from /repo's .tl files; frame theorems with lz4 abstract; "
                   "differential correspondence of the codec against the generated Go readers/writers for every factory item; Go-side "
                   "round-trip oracle for TL1 bare/boxed, TL2, JSON, bytes-vs-string variants, function results and frames"),
@@ -112,11 +117,16 @@ META = {
              "corollaries boxed round trip, injectivity, prefix-freeness; instantiated for every type of the current schema (tags re-checked "
              "distinct by evaluation). frame_roundtrip for every payload within MaxUncompressedBucketSize and any inverse lz4 pair; undersized / "
              "oversized frames rejected, output length always equals the announced size. tl2_size_roundtrip / tl2_string_roundtrip: the TL2 size "
-             "codec (three forms) and TL2 strings round-trip for every size up to MaxInt, tied to basictl2.go at every form boundary. The Lean codec is tied to the generated Go by decoding "
+             "codec (three forms) and TL2 strings round-trip for every size up to MaxInt, tied to basictl2.go at every form boundary. "
+             "tl2_roundtrip: for every descriptor of the modelled TL2 fragment and every well-typed value, ReadTL2(WriteTL2 v ++ rest) = (v, rest) "
+             "(size-prefixed objects, presence-bit blocks with trimming, omitted defaults, conditional fields, enums, vectors, dictionaries); "
+             "schema_tl2_supported + schema_tl2_roundtrip instantiate it for all 55 types with generated TL2 code. The TL2 codec is tied to the "
+             "generated Go like the TL1 one (decode + re-encode of Go's WriteTL2 bytes, truncations, mutants, and TL1/TL2 bytes denote the same model value). The Lean codec is tied to the generated Go by decoding "
              "and re-encoding the Go bytes of every factory item (valid, truncated and mutated) and comparing accept/reject, consumed length and bytes."),
-    "note": ("Partial: the generated TL2 object codecs and JSON are checked only by the Go-side oracle (write, read back, compare canonical TL1 bytes) for every type, "
-             "including bodies of exactly every size around the TL2 form boundaries and reads into reused objects; the "
-             "bytes/string-variant clause is oracle-only (both variants are the same descriptor in the model). The model omits "
+    "note": ("Partial: JSON is the one remaining non-theorem clause (Go-side oracle for every type: write, read back, compare canonical TL1 bytes); its "
+             "substance is decimal/float text formatting and string escaping, not layout. TL2 top-level enum constructors are factory singletons that "
+             "serialise to nothing in Go (they occur in the model only inside their unions). The "
+             "bytes/string-variant clause is definitional in the model (one descriptor) and checked per type by the correspondence (decb/tl2b ops) and the Go oracle. The model omits "
              "CheckLengthSanity. Trusted: Lean kernel, tools/tl2lean.py (its output is what the correspondence tests against the Go code), "
              "the hand transcription tools/c14_barsic.tl for the barsic package (no .tl in the repo), lz4 library."),
     "design_ref": "DESIGN.md §6 C14",
